@@ -8,9 +8,11 @@
 
     [request_escrow_eq_liabilities] needs one hypothesis on the history, [fresh_history]: no
     context id (tx hash, per-block index) is issued while a context with that id is still
-    stored — distinct transactions have distinct hashes (SHA-256 collision-freeness). *)
+    stored.  It follows from "the context-creating transactions of the history have pairwise
+    distinct hashes" ([fresh_history_from_distinct_hashes], Props/C08.v). *)
 From Irismod Require Import Service.Model Service.Proofs Service.ProofsHist Service.ProofsEscrow
-  Service.ProofsSched Service.ProofsBatch Service.ProofsLiab Service.ProofsTally.
+  Service.ProofsSched Service.ProofsBatch Service.ProofsLiab Service.ProofsTally Service.ProofsLive Service.ProofsModule Service.ProofsFresh
+  Service.ProofsCallback Service.ProofsSchedule Service.ProofsModuleHist.
 
 (** Over EVERY history (any list of steps: messages of any kind and content, valid or not, block
     ends with expiry, slashing, refunds and new batches, rate changes, transfers, module
@@ -111,8 +113,9 @@ Theorem slash_amount :
 Proof. exact slash_amount_lemma. Qed.
 Print Assumptions slash_amount.
 
-(** Over EVERY history in which context ids are fresh (see the header), for every parameter
-    set, from any initial height, time and ledger with empty escrows: in every denom the
+(** Over EVERY history whose context-creating transactions have pairwise distinct hashes
+    ([create_txhs]; context ids are then fresh, ProofsFresh.v), for every parameter set — WITH or
+    without a module-served service —, from any initial height, time and ledger with empty escrows: in every denom the
     balance of the request escrow equals the fees of the requests still awaiting a response
     plus the earned fees not yet withdrawn ([liab d s]).  The proof carries the scheduling
     invariant (a batch is only started when the previous one is closed, CleanBatch only ever
@@ -121,10 +124,10 @@ Print Assumptions slash_amount.
 Theorem request_escrow_eq_liabilities :
   forall c steps h0 t0 l0,
     (forall d, bal l0 REQ d = 0) -> bal l0 DEP BASE = 0 ->
-    fresh_history c (init h0 t0 l0) steps ->
+    NoDup (create_txhs steps) ->
     let s := run c (init h0 t0 l0) steps in
     forall d, bal (led s) REQ d = liab d s.
-Proof. exact request_escrow_eq_liabilities_lemma. Qed.
+Proof. exact request_escrow_eq_liabilities_m_lemma. Qed.
 Print Assumptions request_escrow_eq_liabilities.
 
 (** Over EVERY history (no hypothesis at all), for every owner [o] and denom [d]: the owner-side
@@ -138,6 +141,32 @@ Theorem provider_owner_tallies_agree :
 Proof. exact provider_owner_tallies_agree_lemma. Qed.
 Print Assumptions provider_owner_tallies_agree.
 
+(** A call to a service that a MODULE serves itself (msgServer.CallService, second branch;
+    Keeper.RequestModuleService — [c_msvc c >= 0]).  If the call succeeds from a state in which
+    the escrow equation holds (and the context id is fresh), then: the equation holds afterwards;
+    the consumer falls by exactly the fee recorded on the ONE request created for the module's
+    provider (price with discounts), in its denom; the request escrow rises by fee - tax; that
+    request is stored answered, inactive, addressed to the module's provider.  FALSE on the code
+    before the fix "service module-service request charges the consumer the fee its request
+    records" (the undiscounted price, or nothing at all, was deducted).
+    The history theorems ([request_escrow_eq_liabilities], [deposit_escrow_eq_bindings],
+    [provider_owner_tallies_agree]) hold on chains with a module-served service as well: every
+    other step behaves as on the chain without one ([apply_no_msvc]) and the module-served call
+    preserves the invariants (ProofsModuleHist.v). *)
+Theorem module_call_charged_the_recorded_fee :
+  forall c s txh svc provs cons inok capd capa timeout rep freq total s',
+    call_module c s txh svc provs cons inok capd capa timeout rep freq total = Okk s' ->
+    DepInv s -> BatchInv s -> ctx_at s (txh, iidx s) = None -> EscEq s ->
+    EscEq s'
+    /\ exists fd fee tax,
+         0 <= tax <= fee
+         /\ (forall d, bal (led s') cons d = bal (led s) cons d - (if fd =? d then fee else 0))
+         /\ (forall d, bal (led s') REQ d = bal (led s) REQ d + (if fd =? d then fee - tax else 0))
+         /\ (exists q, get ((txh, iidx s), 1, height s, 0) (reqs s') = Some q
+                       /\ q_fee q = fee /\ q_fd q = fd /\ q_prov q = c_mprov c /\ q_active q = false /\ q_resp q <> 0).
+Proof. exact module_call_lemma. Qed.
+Print Assumptions module_call_charged_the_recorded_fee.
+
 (** Writing [liab d s] for (fees of the active requests in denom d) + (earned fees in denom d):
     if the request escrow equals the liabilities in every denom, it still does after ANY step
     other than a block end — any message of any content (responses, withdrawals, bindings,
@@ -145,6 +174,7 @@ Print Assumptions provider_owner_tallies_agree.
     [DepInv] holds in every reachable state ([reachable_states_satisfy_DepInv]). *)
 Theorem request_escrow_preserved_by_transactions :
   forall c s st,
+    c_msvc c < 0 ->
     (match st with EndBlock _ => False | _ => True end) ->
     DepInv s -> EscEq s -> EscEq (apply c s st).
 Proof. exact escrow_preserved_by_messages_lemma. Qed.
@@ -158,7 +188,7 @@ Print Assumptions reachable_states_satisfy_DepInv.
 (** ** the hypotheses are satisfiable, the conclusions are not vacuous: a history with a
     time-discounted binding (price 100, half price until t = 2000), a second flat binding
     (60), one call to both, one response, one expiry with slashing *)
-Definition ex_cfg := mkCfg 50000000000000000 300000000000000000 6 2 100 4 false 2.
+Definition ex_cfg := mkCfg 50000000000000000 300000000000000000 6 2 100 4 false 2 (-1) 4.
 Definition ex_l0 : ledger := [((0, 0), 1000000); ((5, 0), 1000000)].
 Definition ex_hist : list step :=
   [ Tx 11 (MDefine 0 0 true);
@@ -200,6 +230,26 @@ Example c07_tallies_nonvacuous :
   getz (0, BASE) (oearned s) = 48 /\ osum s 0 BASE = 48 /\ getz (2, BASE) (earned s) = 48.
 Proof. vm_compute. repeat split; reflexivity. Qed.
 
+
+
+(** a module-served service ("2", provider 4, price 100 at half price until t = 2000, bound by the
+    module itself): the call charges 50, the provider earns 50 - tax 2 at once *)
+Definition ex_cfg_m := mkCfg 50000000000000000 300000000000000000 6 2 100 4 false 2 2 4.
+Definition ex_hist_m : list step :=
+  [ Tx 11 (MDefine 0 2 true);
+    ModBind 2 4 0 1000 (0, 100, [(0, 2000, 500000000000000000)], []) 1 0;
+    Tx 12 (MBind 2 4 0 1000 (0, 100, [], []) 1 true 0);
+    Tx 14 (MCall 2 [4] 5 true 0 100000 2 false 0 0);
+    EndBlock 5 ].
+
+Example c07_module_call_nonvacuous :
+  let s := run ex_cfg_m (init 1 1000 ex_l0) ex_hist_m in
+  c_msvc ex_cfg < 0 /\ 0 <= c_msvc ex_cfg_m
+  /\ exec_step ex_cfg_m (run ex_cfg_m (init 1 1000 ex_l0) (firstn 2 ex_hist_m)) (Tx 12 (MBind 2 4 0 1000 (0, 100, [], []) 1 true 0)) = Rejj
+  /\ bal (led s) 5 BASE = 1000000 - 50 /\ bal (led s) REQ BASE = 48 /\ liab BASE s = 48
+  /\ getz (4, BASE) (earned s) = 48 /\ bal (led s) DEP BASE = 1000 /\ dep_sum (binds s) = 1000.
+Proof. vm_compute. repeat split; try reflexivity; discriminate. Qed.
+
 Example c07_fresh_history_satisfiable :
-  fresh_history ex_cfg (init 1 1000 ex_l0) ex_hist.
-Proof. apply fresh_historyb_ok. vm_compute. reflexivity. Qed.
+  fresh_history ex_cfg (init 1 1000 ex_l0) ex_hist /\ NoDup (create_txhs ex_hist) /\ NoDup (create_txhs ex_hist_m).
+Proof. split; [apply fresh_historyb_ok; vm_compute; reflexivity|]. split; vm_compute; repeat constructor; simpl; tauto. Qed.
